@@ -591,6 +591,25 @@ class Program:
         body["__labsim_fields__"] = sorted(names)
         return datasetclass(type(n["name"], bases, body))
 
+    def _b_recur(self, n):
+        """A RECURSIVE graph: R(a = Option(key, 0).bind(v -> base value if v <= 0 else WithOptions(R, {key: v - 1}))) -- the
+        same dataset object is entered again, with other options, while its own evaluation is still in flight."""
+        holder = {}
+        key = n["key"]
+
+        def step(v):
+            rt.call("bindfn", f"bind_{n['id']}", v=v)
+            if isinstance(v, bool) or not isinstance(v, int) or v <= 0:
+                return Value(("rec-base", freeze(v)))
+            return WithOptions(holder["ds"], {key: v - 1})
+
+        step.__name__ = f"bind_{n['id']}"
+        arg = Option(key, 0).bind(step)
+        fn = make_fn(n["name"], ["a"], [arg], _body_impl(n["name"]))
+        ds = dataset.nocache(fn) if n.get("cache") == "nocache" else dataset(fn)
+        holder["ds"] = ds
+        return ds
+
     def _b_dict(self, n):
         return evaluatable_dict({key: self.ref(m) for key, m in n["items"]})
 
